@@ -53,6 +53,14 @@ ResOK(e, got) ==
                           /\ ToSet(got.services) = e.services /\ Len(got.services) = Cardinality(e.services)
                           /\ ToSet(got.ifaces) = e.ifaces /\ Len(got.ifaces) = Cardinality(e.ifaces)
                           /\ ToSet(got.comps) = e.comps
+      [] e.k = "tables" ->
+            /\ got.k = "tables"
+            /\ [t \in DOMAIN got.svc |-> [layer |-> got.svc[t].layer, min_if |-> got.svc[t].min_if, max_if |-> got.svc[t].max_if,
+                                          sites |-> got.svc[t].sites, req |-> ToSet(got.svc[t].req), forb |-> ToSet(got.svc[t].forb),
+                                          iftypes |-> ToSet(got.svc[t].iftypes)]] = e.svc
+            /\ \A t \in DOMAIN got.svc : got.svc[t].instances = 0
+            /\ [t \in DOMAIN got.node |-> [req |-> ToSet(got.node[t].req), forb |-> ToSet(got.node[t].forb)]] = e.node
+            /\ [t \in DOMAIN got.link |-> got.link[t]] = e.link
       [] e.k = "handles" -> /\ got.k = "handles" /\ Len(got.v) = Len(e.hs)
                             /\ \A j \in 1..Len(e.hs) : ToSet(got.v[j].fresh) = e.hs[j] /\ ToSet(got.v[j].cached) = e.hs[j]
                                                          /\ Len(got.v[j].cached) = Cardinality(e.hs[j])
@@ -81,7 +89,9 @@ Next == /\ l <= Len(Traces[tid].steps)
                        ELSE IF ~ResOK(exp.res, line.res) THEN
                             (IF exp.res.k = "handles" /\ line.res.k = "handles" /\ Len(line.res.v) = Len(exp.res.hs)
                                 /\ \A j \in 1..Len(exp.res.hs) : ToSet(line.res.v[j].fresh) = exp.res.hs[j]
-                             THEN "result: the handle used for the call differs from a fresh lookup" ELSE "result")
+                             THEN "result: the handle used for the call differs from a fresh lookup"
+                             ELSE IF exp.res.k = "tables" THEN "constraint table changed (live tables differ from the pinned ones)"
+                             ELSE "result")
                        ELSE IF Diff(X, O) # "" THEN Diff(X, O)
                        ELSE ImplInv(js, O)
            IN  /\ IF v # "" THEN PrintT(ToJson([verdict |-> "REJECT", tid |-> Traces[tid].tid, line |-> l, clause |-> v])) ELSE TRUE
